@@ -294,7 +294,12 @@ def check_elab_history(hist):
         return (f"elab.raises.{type(e).__name__}", f"{hist!r}: valid final mapping {sorted(view.items())} rejected: "
                                                    f"{type(e).__name__}: {str(e)[:160]}", w)
     got = set()
-    for net in package_meaning(pkg, "C04Top").nets:
+    from rtc.meaning import InvalidPackage
+    try:
+        pmeaning = package_meaning(pkg, "C04Top")
+    except InvalidPackage as e:
+        return ("elab.nets", f"{hist!r}: the package exported for the final mapping is not a circuit: {str(e)[:160]}", w)
+    for net in pmeaning.nets:
         devs = frozenset((t[1][0], t[2]) for t in net if t[0] == "dev")
         if devs:
             got.add(devs)
